@@ -59,6 +59,21 @@ def make_calls(ch, params):
     for slot in sorted(info.get('table_map', {})):
         script.append(('slot', 0, slot))
     script += gen.call_script(ch, m, params.get('nargs', 8))
+    if ch.below(2) == 0 and not imported_table:
+        # (not with an imported table: the child's element segments would then rewrite entries of the table the parent uses, and
+        # entries written by another instance are cross-instance calls, which generated code - bare function pointers called with
+        # the caller's instance - does not model; the property speaks of the calls of one instance)
+        # instance life cycle: a child instance made through the parent's newChild hook, used, and released again by the embedder
+        # (<module>FreeInstance + free); the parent's table, its calls and indirect calls are not affected by any of it
+        script.append(('child', 100, 0))
+        for slot in sorted(info.get('table_map', {}))[:4]:
+            script.append(('slot', 100, slot))
+        script += gen.call_script(ch, m, 1, inst=100)
+        script.append(('freechild', 100))
+        for slot in sorted(info.get('table_map', {})):
+            script.append(('slot', 0, slot))
+        script += gen.call_script(ch, m, 2)
+        info.setdefault('static', {})['child_created_and_freed'] = True
     return m, script, {'nontrivial_fn': nontrivial, 'ninst': 1, 'info': info}
 
 
